@@ -116,6 +116,36 @@ Theorem checker_sound :
 Proof. exact C02_check_sound. Qed.
 Print Assumptions checker_sound.
 
+(* whole-epoch forms of the last two: ALL successive triggers of the epoch so far (chain_ge d l: consecutive elements
+   of l at least d apart), and the whole chain first candidate -> triggers of the epoch so far *)
+Theorem epoch_chains :
+  forall npre nsamp ts F0 period sgn ops,
+    0 <= F0 -> lengths_ok npre nsamp = true -> nsamp <= max_nsamp ->
+    contiguous F0 ops -> Forall (op_ok2 period sgn) ops ->
+    exists bs, annotate F0 (init_sstate npre nsamp ts F0) (combine ops (run (fresh_start npre nsamp ts) ops)) = Some bs /\
+      forall b, In b bs ->
+        (ts_edge (bi_ts b) = true -> ts_level (bi_ts b) = false -> ts_auto (bi_ts b) = false ->
+           chain_ge (bi_nsamp b) (epoch_trigs b)) /\
+        (ts_auto (bi_ts b) = true -> ts_autoveto (bi_ts b) <= 0 ->
+           gaps_le (auto_dly b + bi_nsamp b) (first_cand b) (epoch_trigs b)).
+Proof. exact st_epoch_chains. Qed.
+Print Assumptions epoch_chains.
+
+(* the checker's "true" in whole-epoch form, for ANY observed history of a channel with one signedness in which the
+   lengths in force satisfy 0 <= npre <= nsamp: every block passes the full judgement block_ok (= sound, edge_complete
+   and level_complete over ALL candidates of the epoch so far, no_overlap, auto_gap) and the two chains hold *)
+Theorem checker_sound_epoch :
+  forall npre nsamp ts F0 sgn h,
+    C02_check npre nsamp ts F0 h = true ->
+    exists bs, annotate F0 (init_sstate npre nsamp ts F0) h = Some bs /\
+      ((forall b, In b bs -> 0 <= bi_npre b <= bi_nsamp b /\ seg_signed (bi_seg b) = sgn) ->
+       forall b, In b bs ->
+         (sound b /\ C02.Spec.edge_complete b /\ C02.Spec.level_complete b /\ no_overlap b /\ auto_gap b) /\
+         (only_edge b = true -> chain_ge (bi_nsamp b) (epoch_trigs b)) /\
+         (auto_free b = true -> gaps_le (auto_bound b) (first_cand b) (epoch_trigs b))).
+Proof. exact C02_check_sound_full. Qed.
+Print Assumptions checker_sound_epoch.
+
 (* the two defects of the unchanged tree, stated on the pre-fix model functions kept in Model.v:
    (a) PrepareRun left EMTState.nsamp = 0 (10 samples retained between blocks): a step at the first undecidable
        position of a block is lost;  (b) ConfigureTrigger set LastTrigger = 0: a step in the first nsamp frames of
